@@ -116,9 +116,17 @@ Record constraints := mkConstraints {
   allowed : list mode      (* AllowedModes *)
 }.
 
-(* ConfigSelector.lastDecisionTime / lastMode *)
-Record cstate := mkCstate { last_time : Z; last_mode : mode }.
-Definition cstate0 : cstate := mkCstate zero_instant ""%string.
+(* ConfigSelector.lastDecisionTime / lastMode / hasLastDecision.
+   hasLastDecision exists in the code only after notes/fixes/selector-zero-time-stability.patch;
+   in the code as found it is a ghost field (written, never read). *)
+Record cstate := mkCstate { last_time : Z; last_mode : mode; has_last : bool }.
+Definition cstate0 : cstate := mkCstate zero_instant ""%string false.
+
+(* "a previous decision exists", as the stability gate tests it.
+   patched = false: the code as found:  !s.lastDecisionTime.IsZero()
+   patched = true : the repaired code:  s.hasLastDecision *)
+Definition armed (patched : bool) (st : cstate) : bool :=
+  if patched then has_last st else negb (is_zero_time (last_time st)).
 
 (* kind: which return statement of SelectConfig produced the decision
    0 strategy decision accepted, 1 low confidence, 2 mode not allowed, 3 stability enforced *)
@@ -133,6 +141,7 @@ Definition is_allowed (c : constraints) (m : mode) : bool :=
 
 (* ------------------------------------------------------------------ SelectConfig (selector.go:340-397) *)
 Section Select.
+  Variable patched : bool.
   Variable strategy : features -> Z -> sdec.
 
   Definition select_config (st : cstate) (c : constraints) (f : features) (w : Z) (now : Z)
@@ -143,11 +152,11 @@ Section Select.
     (* 2. allowed modes *)
     else if negb (is_allowed c (s_mode d)) then (st, mkDecision ModeNone (s_conf d) 2 0)
     (* 3. stability period *)
-    else if negb (is_zero_time (last_time st))
+    else if armed patched st
             && (sat_sub now (last_time st) <? min_stab c)
             && negb (String.eqb (s_mode d) (last_mode st))
          then (st, mkDecision (last_mode st) (s_conf d) 3 0)
-    else (mkCstate now (s_mode d), mkDecision (s_mode d) (s_conf d) 0 (s_cfg d)).
+    else (mkCstate now (s_mode d) true, mkDecision (s_mode d) (s_conf d) 0 (s_cfg d)).
 
   (* one observation = features, workload type, the clock reading of that call *)
   Definition obs := (features * Z * Z)%type.
@@ -253,13 +262,14 @@ Definition ghost_step (c : constraints) (g : ghost) (r : row) : ghost :=
 Definition ghost_of (c : constraints) (t : list row) : ghost := fold_left (ghost_step c) t ghost0.
 
 (* stability for one more decision [r] after history [g]: if r passes the gates, a recorded
-   decision exists, its clock reading T is not the zero instant and now - T < MinStabilityPeriod,
-   then r returns the mode of the previous gate-passing decision *)
-Definition stability_ok_step (c : constraints) (g : ghost) (r : row) : bool :=
+   decision exists (clock reading T) and now - T < MinStabilityPeriod, then r returns the mode of
+   the previous gate-passing decision.  strict = false adds the exception the code as found needs:
+   "... and T is not the zero instant". *)
+Definition stability_ok_step (strict : bool) (c : constraints) (g : ghost) (r : row) : bool :=
   if passes c r then
     match g_rec_time g, g_pass_mode g with
     | Some T, Some m =>
-        if negb (is_zero_time T) && (sat_sub (r_now r) T <? min_stab c)
+        if (strict || negb (is_zero_time T)) && (sat_sub (r_now r) T <? min_stab c)
         then String.eqb (d_mode (r_dec r)) m else true
     | _, _ => true
     end
@@ -292,24 +302,13 @@ Fixpoint trace_ok_from (step_ok : constraints -> ghost -> row -> bool) (c : cons
   | [] => true
   | r :: t' => step_ok c g r && trace_ok_from step_ok c (ghost_step c g r) t'
   end.
-Definition stability_ok (c : constraints) (t : list row) : bool := trace_ok_from stability_ok_step c ghost0 t.
+Definition stability_ok (strict : bool) (c : constraints) (t : list row) : bool :=
+  trace_ok_from (stability_ok_step strict) c ghost0 t.
 Definition dwell_ok (c : constraints) (t : list row) : bool := trace_ok_from dwell_ok_step c ghost0 t.
 
-(* clock readings never decrease and never equal the zero instant *)
-Fixpoint clock_mono (prev : Z) (l : list obs) : bool :=
+(* clock readings never decrease (and, for the code as found, never equal the zero instant) *)
+Fixpoint clock_mono (strict : bool) (prev : Z) (l : list obs) : bool :=
   match l with
   | [] => true
-  | (_, _, now) :: r => (prev <=? now) && negb (is_zero_time now) && clock_mono now r
+  | (_, _, now) :: r => (prev <=? now) && (strict || negb (is_zero_time now)) && clock_mono strict now r
   end.
-
-(* stability WITHOUT the exception for a recorded clock reading equal to the zero instant (what the
-   property text asks for literally "by the supplied clock"); refuted in Proofs/Selector.v *)
-Definition stability_strict_step (c : constraints) (g : ghost) (r : row) : bool :=
-  if passes c r then
-    match g_rec_time g, g_pass_mode g with
-    | Some T, Some m =>
-        if sat_sub (r_now r) T <? min_stab c then String.eqb (d_mode (r_dec r)) m else true
-    | _, _ => true
-    end
-  else true.
-Definition stability_strict (c : constraints) (t : list row) : bool := trace_ok_from stability_strict_step c ghost0 t.
